@@ -25,7 +25,7 @@ import kernelchecks as K
 C15_THEOREMS = ["C15_skeleton_is_reference", "C15_exec_only_after_load", "C15_failure_exits_nonzero_without_target",
                 "C15_run_failure_exits_nonzero", "C15_success_runs_target", "C15_never_stuck", "C15_filter_requests_tsync",
                 "C15_flags_from_command_line", "C15_target_sees_policy", "C15_nonvacuous",
-                "C15_command_consults_only_flags_and_file"]
+                "C15_command_consults_only_flags_and_file", "C15_command_flags"]
 
 ACTION_NAMES = {K.ALLOW: "allow", K.LOG: "log", K.ERRNO: "errno", K.TRACE: "trace", K.TRAP: "trap", K.KILLP: "kill_process",
                 K.KILLT: "kill_thread"}
